@@ -116,6 +116,20 @@ def e2_merge_algo(ctx):
     run_scenarios(ctx, [lift.lift_merge(b, i) for i, b in enumerate(behs)], "e2merge", perfile=16, shards=4)
 
 
+def e1_gen_api(ctx):
+    tlc_mc(ctx, "GenAPI", "MC_GenAPI.cfg" if ctx.quick else "MC_GenAPI_thorough.cfg")
+    tlc_mc(ctx, "GenAPI", "MC_GenAPI_dev_MergeTouchesBitmap.cfg", workers=4, expect_violation="BitmapsImmutable")
+
+
+def e2_gen_api(ctx, num):
+    """E2: random API histories of the generative Level-A machine, a digest after every step"""
+    import lift
+    behs = tlc_emit(ctx, "GenAPI", "Gen_GenAPI.cfg", os.path.join(ctx.work, "beh-api.json"),
+                    extra=["-simulate", "num=%d" % num, "-depth", "20", "-seed", str(ctx.seed)])
+    behs = lift.dedupe(behs)[:num]
+    run_scenarios(ctx, [lift.lift_api(b, i) for i, b in enumerate(behs)], "e2api", perfile=10, shards=4)
+
+
 def e1_algebra(ctx):
     tlc_mc(ctx, "IceAlgebra", "MC_IceAlgebra_%s.cfg" % tier(ctx))
 
@@ -285,6 +299,8 @@ def plan_C12(ctx):
 
 def plan_C13(ctx):
     e1_reuse(ctx)
+    e1_gen_api(ctx)
+    e2_gen_api(ctx, n_of(ctx, 60, 1200))
     run_family(ctx, "reuse", n_of(ctx, 200, 4000), perfile=n_of(ctx, 20, 40))
     run_family(ctx, "dv_walk", n_of(ctx, 8, 100), perfile=2, seed_off=9)
     canary(ctx)
@@ -299,6 +315,9 @@ def plan_C14(ctx):
 
 
 def plan_C15(ctx):
+    e1_gen_api(ctx)
+    e2_gen_api(ctx, n_of(ctx, 60, 1200))
+    require_cov(ctx, "tag:api_merge_with_bitmap", "tag:api_prealloc")
     run_family(ctx, "immut", n_of(ctx, 80, 1500), perfile=n_of(ctx, 8, 20))
     canary(ctx)
 
